@@ -37,8 +37,8 @@ Print Assumptions C20_serializable_if_disjoint.
     witness below is not ordered for either serial order of its two wallet threads *)
 Example C20_ordered_example :
   let c := start scen_recv_cpfin_state scen_recv_cpfin_threads in
-  ordered (fun t => t) (trace_fp Fresh [0; 1; 0; 2; 0] c)
-  /\ sort_by (fun t => t) [0; 1; 0; 2; 0] = [0; 0; 0; 1; 2]
+  ordered (fun t => t) (trace_fp Fresh [0; 1; 0; 2] c)
+  /\ sort_by (fun t => t) [0; 1; 0; 2] = [0; 0; 1; 2]
   /\ orderedb (fun t => t) (trace_fp Fresh w_stale c_recv_cancel) = false
   /\ orderedb (fun t => 2 - t) (trace_fp Fresh w_stale c_recv_cancel) = false.
 Proof.
@@ -56,7 +56,7 @@ Theorem C20_footprints_sound :
         fst (step m l s) = fst (step m l s')
         /\ forall x, memL x (snd (fp l)) = true ->
                      eq_on x (snd (step m l s)) (snd (step m l s'))).
-Proof. intros m l s s'. split; [intro x; apply step_frame|apply step_det]. Qed.
+Proof. exact footprints_sound. Qed.
 Print Assumptions C20_footprints_sound.
 
 (** (2) No deadlock: with the single non-re-entrant wallet lock made explicit (a thread
